@@ -208,7 +208,7 @@ package plugin
 //@   ensures config.Cmd == old(config.Cmd) && config.Reattach == old(config.Reattach) && config.VersionedPlugins == old(config.VersionedPlugins) && config.Plugins == old(config.Plugins) && config.TLSConfig == old(config.TLSConfig) && config.AutoMTLS == old(config.AutoMTLS) && config.GRPCBrokerMultiplex == old(config.GRPCBrokerMultiplex) && config.SkipHostEnv == old(config.SkipHostEnv) && config.SecureConfig == old(config.SecureConfig)   [C17.cfg] [C14.cfg]
 
 //@ func NewRPCClient
-//@   at call yamux.Client#1 assert arg0 == conn && arg1 == nil   [C03.c] [C04.bounded]
+//@   at call yamux.Client#1 assert arg0 == conn && arg1 == nil   [C03.c] [C04.bounded] [C06.session]
 //@   nopanic [C03.d]
 //@   bounded peer-dead [C03.c] [C18.gor]
 //@   requires conn != nil
@@ -925,6 +925,7 @@ package plugin
 //@   ensures !held(b.Mutex)   [C09.balance]
 //@   ensures result == nil
 //@   ensures closed(p.doneCh)   [C18.gor] [C09.exit]
+//@   at call delete#1 assert arg0 == b.serverStreams && arg1 == id   [C08.close] [C07.file]
 
 //@ func (*GRPCBroker).Accept$2$1
 //@   nopanic [C20.nopanic]
@@ -1131,6 +1132,11 @@ package plugin
 //@   after select#1 assume index == 2 ==> recv2 != nil && recv2.ch != nil && !closed(recv2.ch)
 //@   at call (plugin.GRPCBroker_StartStreamServer).Send#1 assert arg0 == se.i   [C07.pump]
 //@   at send#1 assert chan == se.ch   [C07.pump] [C20.send]
+//@   local owe: Bool := false
+//@   after select#1 set owe := index == 2
+//@   after send#1 set owe := false
+//@   loop#1 invariant !owe   [C09.reply] [C07.pump]
+//@   ensures !owe   [C09.reply] [C07.pump]
 
 //@ type gRPCBrokerClientImpl
 //@   immutable send, recv, quit   [C20.guard]
@@ -1197,6 +1203,11 @@ package plugin
 //@   after select#1 assume index == 2 ==> recv2 != nil && recv2.ch != nil && !closed(recv2.ch)
 //@   at call (plugin.GRPCBroker_StartStreamClient).Send#1 assert arg0 == se.i   [C07.pump]
 //@   at send#1 assert chan == se.ch   [C07.pump] [C20.send]
+//@   local owe: Bool := false
+//@   after select#1 set owe := index == 2
+//@   after send#1 set owe := false
+//@   loop#1 invariant !owe   [C09.reply] [C07.pump]
+//@   ensures !owe   [C09.reply] [C07.pump]
 
 //@ func (*gRPCBrokerServer).StartStream
 //@   nopanic [C07.total] [C20.nopanic]
@@ -1435,7 +1446,7 @@ package plugin
 //@   ensures s.server.broker == nil   [C18.srv]
 
 //@ func (*RPCServer).ServeConn
-//@   at call yamux.Server#1 assert arg0 == conn && arg1 == nil   [C03.c]
+//@   at call yamux.Server#1 assert arg0 == conn && arg1 == nil   [C03.c] [C06.session]
 //@   nopanic [nospawn]
 //@   bounded peer-dead [C18.gor]
 //@   requires conn != nil
